@@ -93,6 +93,105 @@ def gen_histories(seed, tier, pid):
     return hs
 
 
+def binary_worlds(sc, r, tier):
+    """Shapes the id-based model does not express (what else sits at a receiving path, which names are taken), through the binary
+    `sy --bidirectional`: every version present before a run must exist afterwards on at least one side (as the path's content or as
+    a conflict copy), the runs report no error, and nothing outside the two roots changes."""
+    import world
+    viol, n = [], 0
+
+    def versions(*roots):
+        out = set()
+        for root in roots:
+            for d, _, fs in os.walk(root):
+                for f in fs:
+                    fp = os.path.join(d, f)
+                    if os.path.isfile(fp) and not os.path.islink(fp):
+                        out.add(open(fp, "rb").read())
+        return out
+
+    def put(path, data, mt=None):
+        os.makedirs(os.path.dirname(path), exist_ok=True)
+        with open(path, "wb") as fh:
+            fh.write(data)
+        if mt is not None:
+            os.utime(path, ns=(mt * 10**9, mt * 10**9))
+
+    reps = 2 if tier == "quick" else 10
+    for k in range(reps):
+        for strat in r.sample(bc.STRATS, 2 if tier == "quick" else 6):
+            # (1) the receiving file has a second name (another synchronised path g, or a name outside the roots)
+            base = os.path.join(sc.dir, "bw-link-%d-%s" % (k, strat)); A, B, out = base + "/A", base + "/B", base + "/out"
+            put(A + "/f", b"same"); put(A + "/g", b"same"); put(B + "/f", b"same"); os.link(B + "/f", B + "/g")
+            put(out + "/keep", b"x"); os.link(B + "/f", out + "/snapshot")
+            r1 = world.run_sy(["--bidirectional", A, B, "-q", "--conflict-resolve", strat], sc)
+            put(A + "/f", b"new-f-content")
+            before = versions(A, B) - {b"same"} | {b"same"}
+            r2 = world.run_sy(["--bidirectional", A, B, "-q", "--conflict-resolve", strat], sc)
+            r3 = world.run_sy(["--bidirectional", A, B, "-q", "--conflict-resolve", strat], sc)
+            n += 1
+            why = []
+            if open(out + "/snapshot", "rb").read() != b"same":
+                why.append("a name OUTSIDE both roots (a hard link of the receiving file) changed")
+            for g in (A + "/g", B + "/g"):
+                if not os.path.isfile(g) or open(g, "rb").read() != b"same":
+                    why.append("g, which nobody edited, no longer holds its content on %s" % g[-3:])
+            if why and all(x["rc"] == 0 for x in (r1, r2, r3)):
+                viol.append({"world": "receiving file has a second name", "strategy": strat, "why": "; ".join(why)})
+            # (2) the receiving path is a symbolic link to another synchronised file / to a file outside the roots
+            for inside in (True, False):
+                base = os.path.join(sc.dir, "bw-sym-%d-%s-%d" % (k, strat, inside)); A, B, out = base + "/A", base + "/B", base + "/out"
+                put(A + "/g", b"GGGG", 1000); put(B + "/g", b"GGGG", 1000); put(out + "/target", b"precious", 1000)
+                os.makedirs(B, exist_ok=True)
+                os.symlink("g" if inside else out + "/target", B + "/f")
+                put(A + "/f", b"AAAAAA")
+                rr = [world.run_sy(["--bidirectional", A, B, "-q", "--conflict-resolve", strat], sc) for _ in range(2)]
+                n += 1
+                why = []
+                if open(out + "/target", "rb").read() != b"precious":
+                    why.append("a file OUTSIDE both roots was written through the link")
+                if b"GGGG" not in versions(A, B):
+                    why.append("the version GGGG of g, which nobody edited, exists on neither side")
+                if why and all(x["rc"] == 0 for x in rr):
+                    viol.append({"world": "receiving path is a symbolic link (%s)" % ("inside" if inside else "outside"), "strategy": strat, "why": "; ".join(why)})
+        # (4) a directory on one side, a file on the other: the roots cannot converge there, so the run must not report success
+        base = os.path.join(sc.dir, "bw-kind-%d" % k); A, B = base + "/A", base + "/B"
+        put(A + "/p/x", b"x"); put(B + "/p/x", b"x"); put(A + "/k", b"k"); put(B + "/k", b"k")
+        world.run_sy(["--bidirectional", A, B, "-q", "--max-delete", "0"], sc)
+        side = A if k % 2 == 0 else B
+        os.remove(side + "/p/x"); os.rmdir(side + "/p"); put(side + "/p", b"now a file")
+        rr = [world.run_sy(["--bidirectional", A, B, "-q", "--max-delete", "0"], sc) for _ in range(2)]
+        n += 1
+        if rr[-1]["rc"] == 0 and os.path.isfile(A + "/p") != os.path.isfile(B + "/p"):
+            viol.append({"world": "directory replaced by a file on one side", "why": "the second run after the change exits 0 and the roots differ at p (a file on one side, a directory on the other)"})
+        # (5) a time stamp before 1970 (a file restored from an old archive): the run must work, and the state it records must be usable
+        base = os.path.join(sc.dir, "bw-1965-%d" % k); A, B = base + "/A", base + "/B"
+        put(A + "/a_old", b"old", -152668800 - k); put(A + "/k", b"k"); put(A + "/z", b"z"); os.makedirs(B, exist_ok=True)
+        r1 = world.run_sy(["--bidirectional", A, B, "-q"], sc)
+        if os.path.exists(B + "/z"):
+            os.remove(B + "/z")
+        r2 = world.run_sy(["--bidirectional", A, B, "-q", "--max-delete", "0"], sc)
+        n += 1
+        if r1["rc"] != 0 or r2["rc"] != 0 or os.path.exists(A + "/z") or not os.path.exists(B + "/a_old"):
+            viol.append({"world": "time stamp before 1970", "why": "exit %s/%s (stderr %r); after the one-sided deletion of z: A has z=%s, B has a_old=%s"
+                         % (r1["rc"], r2["rc"], (r1["err"] + r2["err"])[-200:], os.path.exists(A + "/z"), os.path.exists(B + "/a_old"))})
+        # (3) the conflict name the rename strategy is about to take is a file of the user's on the OTHER side
+        import time
+        base = os.path.join(sc.dir, "bw-cname-%d" % k); A, B = base + "/A", base + "/B"
+        put(A + "/f.txt", b"AAAA-version-of-source"); put(B + "/f.txt", b"BBBB-dest")
+        now = int(time.time())
+        for t in range(now, now + 4):
+            put(B + "/f.conflict-%d-source.txt" % t, b"user file %d" % (t - now))
+            put(A + "/f.conflict-%d-dest.txt" % t, b"user file' %d" % (t - now))
+        before = versions(A, B)
+        rr = world.run_sy(["--bidirectional", A, B, "-q", "--conflict-resolve", "rename"], sc)
+        n += 1
+        lost = before - versions(A, B)
+        if lost and rr["rc"] == 0:
+            viol.append({"world": "conflict names taken on the other side", "strategy": "rename", "why": "versions that exist on neither side after one error-free run: %r" % sorted(lost)[:3]})
+    return viol, n
+
+
 def run_generic(pid, oracle, tier, seed, exhaustive_depth=None):
     res = vlib.Result(pid, tier, seed)
     pr = proof_phase(res, pid)
@@ -116,10 +215,10 @@ def run_generic(pid, oracle, tier, seed, exhaustive_depth=None):
         hi, hm = bc.run_pair(lines, sc)
         # the model is indifferent to names; the implementation must be too: every third history again on name tables
         # that put a path next to the names a working file, backup or conflict copy derived from it could take
-        # (r.txt / r.tmp / r / r.txt.tmp / .r.txt.tmp / r.txt~ / r.bak ...), judged against the same model output
+        # (r.txt / r.tmp / r / r.txt.tmp / .r.txt.tmp / r.txt~ / r.bak ...; adv4: names that are not valid UTF-8, pairwise equal in their lossy form), judged against the same model output
         n0 = len(lines)
-        for k, mode in enumerate(["adv1", "adv2", "adv3"]):
-            idx = list(range(k, n0, 9 if tier == "quick" else 3))
+        for k, mode in enumerate(["adv1", "adv2", "adv3", "adv4"]):
+            idx = list(range(k, n0, 12 if tier == "quick" else 4))
             env = dict(sc.env)
             env["H_BISYNC_NAMES"] = mode
             sub = vlib.run_sharded([os.path.join(vlib.BIN, "h_bisync")], [lines[i] for i in idx], env=env)
@@ -128,7 +227,9 @@ def run_generic(pid, oracle, tier, seed, exhaustive_depth=None):
                 lines.append(lines[i])
                 hi.append(a)
                 hm.append(hm[i])
+        bw_viol, bw_n = binary_worlds(sc, vlib.rng_for(seed, pid + "-bw"), tier) if pid == "C11" else ([], 0)
     hdiff, viol, kf_hits = [], [], {}
+    viol += bw_viol
     nontrivial = set()
     skipped_clock = 0
     for (fam, h), line, a, b in zip(hs, lines, hi, hm):
@@ -155,6 +256,7 @@ def run_generic(pid, oracle, tier, seed, exhaustive_depth=None):
     res.cov["evaluations"] = len(kcases) + len(lines)
     res.cov["classifier_cases"] = len(kcases)
     res.cov["histories"] = len(lines)
+    res.cov["binary_worlds_links_symlinks_taken_names"] = bw_n
     res.cov["histories_skipped_repeated_rename_conflict"] = skipped_clock
     res.cov["families"] = {f: sum(1 for x, _ in hs if x == f) for f in set(x for x, _ in hs)}
     res.cov["distinct_nontrivial"] = len(nontrivial) + len(set(ki))
